@@ -216,12 +216,12 @@ def closed_form_job(job) -> List[Dict[str, Any]]:
     small-game counterpart of an interval rule)."""
     idx, tier, rule, ops = job
     keep = {"predict_win": "R12.1", "predict_rank": "R12.2", "predict_draw": "R12.3"}
-    full = game._cached(_job, (idx, tier), Program().digest())
-    return [dict(d, rule=rule) for d in full if any(d["rule"] == keep[o] for o in ops)]
+    full = game.budgeted(_job, (idx, tier), Program().digest())
+    return [dict(d, rule=rule) for d in full if d["rule"] == "R?" or any(d["rule"] == keep[o] for o in ops)]
 
 
 def _own_job(job) -> List[Dict[str, Any]]:
-    return game._cached(_job, job, Program().digest())
+    return game.budgeted(_job, job, Program().digest())
 
 
 def _fractions_to_consts(t):
